@@ -138,23 +138,23 @@ func hasStd(s WSetting) bool { return s.Window != 4096 }
 // ideal Writer (contract closed under its environment) and the
 // implementation-shaped WriterMech for both compressor variants.
 func (c *Ctx) writerModels() error {
-	if err := c.ModelCheck("WriterModel", "MC_WriterModel.cfg", 5*time.Minute); err != nil {
+	if err := c.ModelCheck("WriterModel", "MC_WriterModel.cfg", 15*time.Minute); err != nil {
 		return err
 	}
 	for _, cfg := range []string{"MC_WriterMech_dyn.cfg", "MC_WriterMech_huff.cfg"} {
-		if err := c.ModelCheck("WriterMech", cfg, 5*time.Minute); err != nil {
+		if err := c.ModelCheck("WriterMech", cfg, 15*time.Minute); err != nil {
 			return err
 		}
 	}
 	// the mechanism model refines the contract: every call it completes is judged by the contract's clauses
 	for _, cfg := range []string{"MC_WriterRefine_dyn.cfg", "MC_WriterRefine_huff.cfg"} {
-		if err := c.ModelCheck("WriterRefine", cfg, 5*time.Minute); err != nil {
+		if err := c.ModelCheck("WriterRefine", cfg, 15*time.Minute); err != nil {
 			return err
 		}
 	}
 	// the container layers (gzip.go, zlib/writer.go) over an abstract compressor, judged the same way
 	for _, cfg := range []string{"MC_GzipWriterMech.cfg", "MC_ZlibWriterMech.cfg"} {
-		if err := c.ModelCheck("GzipWriterMech", cfg, 5*time.Minute); err != nil {
+		if err := c.ModelCheck("GzipWriterMech", cfg, 15*time.Minute); err != nil {
 			return err
 		}
 	}
